@@ -102,6 +102,8 @@ def gen_template(r):
         return "c05", tdoc.emit(doc), []
     if k < 0.55:
         src, expected, kinds = c01.gen_doc(r)
+        # a leading U+FEFF written to a file IS a byte-order mark and is consumed as such: not a path difference
+        src = src.lstrip("\ufeff")
         if c01._coding.match(src):
             return gen_template(r)
         return "c01", src, []
